@@ -212,8 +212,10 @@ def generics():
     gb = strip_doc(g.body)
     if len(gb) != 1:
         bad('is_instance_of_generic_class: shape not recognised')
-    same(gb[0], 'return Generic in instance.__class__.__bases__', 'is_instance_of_generic_class')
-    return {'guard': True, 'positional': True}, provenance(CG, src, f)
+    by_params = variant(gb[0], [
+        ("return Generic in instance.__class__.__bases__ or len(getattr(instance.__class__, '__parameters__', ())) > 0", True),
+        ('return Generic in instance.__class__.__bases__', False)], 'is_instance_of_generic_class')
+    return {'guard': True, 'positional': True, 'by_params': by_params}, provenance(CG, src, f) + ' ; ' + provenance(CG, src, g)
 
 
 def translate():
@@ -230,5 +232,5 @@ def translate():
              f'  sh_call_table_fresh := {coq_bool(fc["fresh"])};\n  sh_call_uses_instance_method := {coq_bool(fc["uses_method"])};\n'
              f'  sh_table_on_instance := {coq_bool(ct["on_instance"])};\n  sh_merge_order := {coq_list(ct["order"])};\n'
              f'  sh_nongeneric_fresh := {coq_bool(ct["nongeneric_fresh"])};\n  sh_orig_class_guard := {coq_bool(ge["guard"])};\n'
-             f'  sh_generics_positional := {coq_bool(ge["positional"])} |}}.\n')
+             f'  sh_generics_positional := {coq_bool(ge["positional"])};\n  sh_generic_by_parameters := {coq_bool(ge["by_params"])} |}}.\n')
     return {UNIT: text}
